@@ -1,13 +1,73 @@
 import BlugeProofs.C09.Alias
+import BlugeProofs.C09.Bridge
+import BlugeProofs.C09.Facts
 import BlugeGen.C09
 /-! # C09 — Top-N, sorting and paging return the right slice of the full ranking
 
 Property theorems only (helper lemmas are in `BlugeProofs/C09/*.lean`).  The model is `Bluge/TopN.lean`;
-`BlugeGen.C09` is regenerated from /repo on every run (`copyIsDeep`, `collectorReversesACopy`,
-`reverseFlips`). All theorems quantify over every sort order, every `n`, `from`, page size and every
+`BlugeGen.C09` is regenerated from /repo on every run: the comparator TRANSLATED from `search/sort.go`
+(`SortOrder_Compare`, `sortFirstLast_Value`, `SortOrder_Reverse_elem`, `highTerm`, `lowTerm`), statement tables, and the
+facts `copyIsDeep`, `collectorReversesACopy`, `reverseFlips`. All theorems quantify over every sort order, every `n`, `from`, page size and every
 match sequence (lists of any length, any byte strings as sort values). -/
 namespace Bluge.C09
 open Bluge.TopN List
+
+/-! ## Gen: the model's comparator is the one of /repo (bridges proved in `BlugeProofs/C09/Bridge.lean`) -/
+
+/-- **`SortOrder.Compare` as translated from /repo's source is `cmpMatch`**: for every sort order and every two
+matches the translated function panics exactly where `cmpPanics` says `SortValue[x]` is out of range, and otherwise
+returns -1 / 0 / +1 as `cmpMatch` orders the matches (first differing key decides, `desc` negates, hit number breaks
+the final tie). Every theorem below is stated over `cmpMatch`. -/
+theorem gen_compare_is_cmpMatch (o : SortOrder) (i j : Match) :
+    BlugeGen.C09.SortOrder_Compare o i j =
+      if cmpPanics o i.keys j.keys then none else some (Ordering.toInt (cmpMatch o i j)) :=
+  compare_eq o i j
+
+/-- on matches that carry one sort value per sort key (what `SortOrder.Compute` produces) it never panics -/
+theorem gen_compare_total (o : SortOrder) (i j : Match) (hi : i.keys.length = o.length) (hj : j.keys.length = o.length) :
+    BlugeGen.C09.SortOrder_Compare o i j = some (Ordering.toInt (cmpMatch o i j)) := by
+  rw [compare_eq]
+  have key : ∀ (o : SortOrder) (ka kb : List Bytes), ka.length = o.length → kb.length = o.length → cmpPanics o ka kb = false := by
+    intro o
+    induction o with
+    | nil => intro ka kb _ _; rfl
+    | cons s so ih =>
+      intro ka kb h1 h2
+      cases ka with
+      | nil => simp at h1
+      | cons a ka =>
+        cases kb with
+        | nil => simp at h2
+        | cons b kb =>
+          simp only [cmpPanics]
+          split
+          · exact ih ka kb (by simpa using h1) (by simpa using h2)
+          · rfl
+  simp [key o i.keys j.keys hi hj]
+
+example : BlugeGen.C09.SortOrder_Compare [⟨true, false⟩] ⟨1, [[1#8]]⟩ ⟨2, [[2#8]]⟩ = some 1 := by decide
+example : BlugeGen.C09.SortOrder_Compare [⟨false, false⟩] ⟨1, [[7#8]]⟩ ⟨2, [[7#8]]⟩ = some (-1) := by decide
+example : BlugeGen.C09.SortOrder_Compare [⟨false, false⟩] ⟨1, []⟩ ⟨2, [[7#8]]⟩ = none := by decide
+
+/-- **the missing-value replacement as translated from /repo (`sortFirstLast.Value`, `highTerm`, `lowTerm`) is
+`missingValue`** on the pointers `SortBy` / `SortOrder.Copy` bind, and dereferences no nil pointer whatever they are -/
+theorem gen_missing_value_is_missingValue :
+    (∀ s : SortKey, BlugeGen.C09.sortFirstLast_Value (FirstLast.of s) = some (missingValue s)) ∧
+    (∀ c : FirstLast, (BlugeGen.C09.sortFirstLast_Value c).isSome = true) ∧
+    BlugeGen.C09.highTerm = highTerm ∧ BlugeGen.C09.lowTerm = lowTerm :=
+  ⟨firstLast_value_eq, firstLast_value_total, highTerm_eq, lowTerm_eq⟩
+
+/-- **`SortOrder.Reverse` as translated from /repo does to every element what `SortKey.reverse` does** -/
+theorem gen_reverse_is_reverse (so : SortOrder) :
+    so.map BlugeGen.C09.SortOrder_Reverse_elem = reverseOrder so := by
+  rw [reverse_elem_eq]; rfl
+
+/-- how a sort value is produced (`SortBy` binds the replacement to the Sort's own flags, `MissingTextValueSource.Value`,
+`SortOrder.Compute`) and which test every caller in package `collector` applies to the comparator's result
+(`>= 0` in the slice store, `> 0` as the heap's `Less`, `<= 0` for search-after, `>= 0` for the shortcut, `< 0` for
+the lowest match outside the results) are what the model was transcribed from -/
+theorem gen_sort_value_and_comparator_uses :
+    BlugeGen.C09.stmts = expectedStmts ∧ BlugeGen.C09.derived = expectedDerived := ⟨rfl, rfl⟩
 
 /-! ## The comparator -/
 
